@@ -509,7 +509,7 @@ def run(ctx):
         if ctx.expired():
             ctx.incomplete('deadline before setting %r' % p)
             break
-        st = explore.bfs(ctx, FACTORY, p, max_depth=8 if quick else 12, ops_chunk=15)
+        st = explore.bfs(ctx, FACTORY, p, max_depth=12 if quick else 16, ops_chunk=15)
         total_states += st['states']
         total_trans += st['transitions']
         per.append({'setting': p, 'states': st['states'], 'transitions': st['transitions'], 'depth': st['completed_depth'], 'fixpoint': st['fixpoint']})
@@ -535,7 +535,7 @@ def run(ctx):
         'states': total_states, 'transitions': total_trans + nbus, 'traces_validated_against_impl': total_trans + nbus,
         'settings': per[:6] + ([{'more': len(per) - 6}] if len(per) > 6 else []), 'bus_level_handshakes': nbus,
         'bound': '%d settings (credentials x allowed mechanisms x {whole lines, byte by byte}); %d commands; BFS to fix-point or depth %d per setting; bus level: all sequences of <= %d of 13 commands for 2 uids x 4 configurations' %
-                 (len(settings), len(COMMANDS), 8 if quick else 12, 2 if quick else 3),
+                 (len(settings), len(COMMANDS), 12 if quick else 16, 2 if quick else 3),
     })
     ctx.sample({'setting': {'creds': 1000, 'mechs': 'all'}, 'history': [['AUTH_EXT_own'], ['CANCEL'], ['AUTH_ANON'], ['BEGIN_msg']], 'expect': 'identity anonymous, never uid 1000'})
     ctx.assumptions = ['the model (specification server table + mechanism definitions)', 'hashlib.sha1']
